@@ -45,11 +45,45 @@ def run(ctx):
     ctx.guard(r6_space)
     ctx.guard(r7_numeric_keys)
     ctx.guard(r8_table_order)
+    ctx.guard(r9_line_granularity)
 
 
 def _walk(stmts):
     from ..cfg import walk_own
     return walk_own(stmts)
+
+
+# -- R9: one definition of the line granularity -----------------------------------
+
+def r9_line_granularity(ctx):
+    """_bufferTraffic rounds positions to lines twice: when it builds the
+    next-use traces and when it simulates the buffer.  Both must use the
+    same number of elements per line, `line_sz // <footprint of one element
+    of the binding>` with the footprint taken from Format.getElem(rank, type)
+    (which knows the coord / payload / interleaved-elem cases): two sites
+    that disagree make the next-use scan and the simulator see different
+    lines, so a line is refilled inside one eviction window."""
+    f = ctx.func(T + "_bufferTraffic")
+    sites = []
+    for n in f.own_nodes():
+        if isinstance(n, ast.BinOp) and isinstance(n.op, ast.FloorDiv) and \
+                text(n.left) == "line_sz":
+            sites.append(n)
+    ctx.require(len(sites) >= 2, "C17.R9: the two elements-per-line computations "
+                "of _bufferTraffic were not found (found %d)" % len(sites))
+    for n in sites:
+        div = pat.inline(ctx, f, n.right).replace(" ", "")
+        if pat.msearch(div, "formats[$A].getElem($B,$C)", full=True):
+            ctx.ok("C17.R9", f, n, "elements per line = line_sz // Format.getElem(rank, type)",
+                   text_="elements per line")
+        else:
+            ctx.bad("C17.R9", f, n, "this site computes the elements per line as "
+                    "`line_sz // %s`, not from Format.getElem(rank, type) like the "
+                    "other site(s): for a binding whose element footprint the two "
+                    "disagree on (an interleaved `elem` binding is cbits + pbits) "
+                    "the next-use traces and the simulation round positions to "
+                    "different lines and a line is filled more than once per "
+                    "eviction window" % div[:80], text_="elements per line")
 
 
 def _anc(n):
